@@ -129,7 +129,11 @@ pub fn drive<F: Future>(
         {
             // the clock the code under test would read shows the world's time
             let g = w.lock().unwrap();
-            crate::clock::set_now_ns(g.now.saturating_mul(g.cfg.tick_len_ns()));
+            crate::clock::set_now_ns(g.clock_base_ns.saturating_add(g.now.saturating_mul(g.cfg.tick_len_ns())));
+            crate::clock::set_realtime_step(match g.realtime_step {
+                Some((at, delta)) if g.now >= at => delta,
+                _ => 0,
+            });
         }
         let r = catch_unwind(AssertUnwindSafe(|| fut.as_mut().poll(&mut cx)));
         match r {
